@@ -278,7 +278,14 @@ func outcomeClass(out string) string {
 	return "ok"
 }
 
-func (e *codecEngine) Exec(ops []string) []string {
+func (e *codecEngine) Exec(ops0 []string) []string {
+	// every case starts from a worker without held payloads
+	ops := append([]string{"x.reset"}, ops0...)
+	res := e.exec1(ops)
+	return res[1:]
+}
+
+func (e *codecEngine) exec1(ops []string) []string {
 	out := make([]string, len(ops))
 	var idx []int
 	for i, op := range ops {
@@ -307,9 +314,16 @@ func isDecOp(name string) bool { return strings.HasSuffix(name, ".dec") || name 
 
 func (e *codecEngine) Nontrivial(ops, impl, model, spec []string) bool {
 	rt, dec := false, false
+	holds, checks := 0, 0
 	for i, op := range ops {
 		name := opName(op)
 		c := outcomeClass(impl[i])
+		if name == "hold" && c == "ok" {
+			holds++
+		}
+		if name == "check" && c == "ok" && impl[i] != "bad-slot" {
+			checks++
+		}
 		if strings.HasSuffix(name, ".rt") && c == "ok" {
 			rt = true
 		}
@@ -317,7 +331,7 @@ func (e *codecEngine) Nontrivial(ops, impl, model, spec []string) bool {
 			dec = true
 		}
 	}
-	return rt && dec
+	return (rt && dec) || (holds >= 2 && checks >= 2)
 }
 
 func (e *codecEngine) Rule() string {
@@ -326,7 +340,10 @@ func (e *codecEngine) Rule() string {
 		"round trips of structured values biased to integer/byte-string boundaries, and decoders run on valid encodings, every-truncation samples, " +
 		"trailing garbage, bit flips, byte replacement, hand re-encodings with one varint field replaced by an overlong/overflowing/huge varint, " +
 		"lying length/count fields and random bytes; non-trivial = the case contains at least one *.rt op whose impl output is ok/a value " +
-		"AND at least one *.dec (or man.read) op whose impl output is err*/panic/oom-guard"
+		"AND at least one *.dec (or man.read) op whose impl output is err*/panic/oom-guard; 15% of the cases are multi-payload cases instead: " +
+		"2..6 encoder results (same or mixed codecs) are kept alive (`hold`), garbage collections interleaved in half of them, then all are decoded " +
+		"in another order and compared with their inputs and with their bytes at production time (`check`); such a case is non-trivial when at least " +
+		"two payloads were held and two checked"
 }
 
 func (e *codecEngine) Extra() map[string]any {
